@@ -119,7 +119,7 @@ end
 
 theorem mapKids_none (f : Nat → Option RTy) (c : RTy) (h : mapKids f c = none) : ∃ j, j ∈ kidParams c ∧ f j = none := by
   cases c with
-  | param j => simp [mapKids] at h
+  | param j => exact ⟨j, by simp [kidParams], by simpa [mapKids] using h⟩
   | con n ks =>
     have h' : mapPL f ks = none := by
       cases hk : mapPL f ks with
@@ -373,7 +373,7 @@ theorem find_reject {env : Env} {i : Nat} {c : RTy} (h : find (reject env) i = s
 
 mutual
 theorem kidParams_sub_mentions : ∀ (c : RTy) (b : Nat), b ∈ kidParams c → b ∈ mentions c
-  | .param _, _, h => by simp [kidParams] at h
+  | .param _, _, h => by simpa [kidParams, mentions] using h
   | .con _ _, _, h => by simpa [kidParams, mentions] using h
 end
 
@@ -430,5 +430,109 @@ theorem getType_found_diverges (fuel : Nat) :
 theorem getType_fixed_example :
     getType (reject [some (.con "Vec" (.cons (.param 0) .nil))]) (.param 0) = some (.param 0) := by
   rfl
+
+
+/-! ## D18: nothing that has a concrete type survives the rewrite -/
+
+mutual
+theorem mapP_mentions (f : Nat → Option RTy) : ∀ (t v : RTy), mapP f t = some v →
+    ∀ j ∈ mentions v, ∃ i ∈ mentions t, ∃ r, f i = some r ∧ j ∈ mentions r
+  | .param i, v, h, j, hj => ⟨i, by simp [mentions], v, by simpa [mapP] using h, hj⟩
+  | .con n ks, v, h, j, hj => by
+    simp only [mapP] at h
+    cases hk : mapPL f ks with
+    | none => simp [hk] at h
+    | some ks' =>
+      simp [hk] at h
+      subst h
+      obtain ⟨i, hi, r, hr, hjr⟩ := mapPL_mentions f ks ks' hk j (by simpa [mentions] using hj)
+      exact ⟨i, by simpa [mentions] using hi, r, hr, hjr⟩
+theorem mapPL_mentions (f : Nat → Option RTy) : ∀ (ts vs : RTys), mapPL f ts = some vs →
+    ∀ j ∈ mentionsL vs, ∃ i ∈ mentionsL ts, ∃ r, f i = some r ∧ j ∈ mentions r
+  | .nil, vs, h, j, hj => by
+    simp [mapPL] at h
+    subst h
+    simp [mentionsL] at hj
+  | .cons t ts, vs, h, j, hj => by
+    simp only [mapPL] at h
+    cases h1 : mapP f t with
+    | none => simp [h1] at h
+    | some t' =>
+      cases h2 : mapPL f ts with
+      | none => simp [h1, h2] at h
+      | some ts' =>
+        simp [h1, h2] at h
+        subst h
+        simp only [mentionsL, List.mem_append] at hj
+        rcases hj with hj | hj
+        · obtain ⟨i, hi, r, hr, hjr⟩ := mapP_mentions f t t' h1 j hj
+          exact ⟨i, by simp [mentionsL, hi], r, hr, hjr⟩
+        · obtain ⟨i, hi, r, hr, hjr⟩ := mapPL_mentions f ts ts' h2 j hj
+          exact ⟨i, by simp [mentionsL, hi], r, hr, hjr⟩
+end
+
+theorem mapKids_mentions (f : Nat → Option RTy) (c v : RTy) (h : mapKids f c = some v) :
+    ∀ j ∈ mentions v, ∃ i ∈ kidParams c, ∃ r, f i = some r ∧ j ∈ mentions r := by
+  intro j hj
+  cases c with
+  | param k => exact ⟨k, by simp [kidParams], v, by simpa [mapKids] using h, hj⟩
+  | con n ks =>
+    have h' : mapP f (.con n ks) = some v := by simpa [mapKids, mapP] using h
+    obtain ⟨i, hi, r, hr, hjr⟩ := mapP_mentions f _ v h' j hj
+    exact ⟨i, by simpa [kidParams, mentions] using hi, r, hr, hjr⟩
+
+/-- what the visitor leaves at a parameter path names only parameters without a concrete type -/
+theorem substAt_closed (env : Env) : ∀ (fuel i : Nat) (r : RTy), substAt env fuel i = some r →
+    ∀ j ∈ mentions r, find env j = none
+  | 0, i, r, h, j, hj => by
+    cases hf : find env i with
+    | none =>
+      simp [substAt, hf] at h
+      subst h
+      simp [mentions] at hj
+      subst hj
+      exact hf
+    | some c => simp [substAt, hf] at h
+  | fuel + 1, i, r, h, j, hj => by
+    cases hf : find env i with
+    | none =>
+      simp [substAt, hf] at h
+      subst h
+      simp [mentions] at hj
+      subst hj
+      exact hf
+    | some c =>
+      have hk : mapKids (substAt env fuel) c = some r := by simpa [substAt, hf] using h
+      obtain ⟨k, _, r', hr', hjr'⟩ := mapKids_mentions _ c r hk j hj
+      exact substAt_closed env fuel k r' hr' j hjr'
+
+/-- **D18, the failure mode excluded**: a type that comes out of the rewrite names no parameter that has a concrete type
+(such a name is not declared where the type is pasted: E0425) - field types and, with `headerArgs`, the generic arguments
+of the impl header. -/
+theorem getType_closed (env : Env) (t v : RTy) (h : getType env t = some v) : ∀ j ∈ mentions v, find env j = none := by
+  intro j hj
+  unfold getType getTypeF at h
+  obtain ⟨i, _, r, hr, hjr⟩ := mapP_mentions _ t v h j hj
+  exact substAt_closed env _ i r hr j hjr
+
+theorem headerArgs_closed (env : Env) (v : RTy) (h : some v ∈ headerArgs env) : ∀ j ∈ mentions v, find env j = none := by
+  unfold headerArgs at h
+  obtain ⟨o, _, ho⟩ := List.mem_map.mp h
+  cases o with
+  | none => simp at ho
+  | some c => exact getType_closed env c v (by simpa using ho)
+
+/-- the code as found: `type A = B, type B = u8` leaves `B` in a field of type `A` and `Vec<B>` in the header -/
+theorem getTypeFound_leaves_alias :
+    getTypeFound [some (.param 1), some (.con "u8" .nil)] (.param 0) = some (.param 1) ∧
+    getType [some (.param 1), some (.con "u8" .nil)] (.param 0) = some (.con "u8" .nil) := by
+  constructor <;> rfl
+
+theorem headerArgsFound_open :
+    headerArgsFound [some (.con "Vec" (.cons (.param 1) .nil)), some (.con "u8" .nil)]
+      = [some (.con "Vec" (.cons (.param 1) .nil)), some (.con "u8" .nil)] ∧
+    headerArgs [some (.con "Vec" (.cons (.param 1) .nil)), some (.con "u8" .nil)]
+      = [some (.con "Vec" (.cons (.con "u8" .nil) .nil)), some (.con "u8" .nil)] := by
+  constructor <;> rfl
 
 end Logos.TypeSubst
